@@ -69,7 +69,9 @@ pub struct WebSocketFramed<T, C, E, D> {
     codec: C,
     encode_item: PhantomData<E>,
     decode_item: PhantomData<D>,
-    buffer: Option<BytesMut>,
+    buffer: BytesMut,
+    is_readable: bool,
+    has_errored: bool,
 }
 
 impl<T, C, E, D> Unpin for WebSocketFramed<T, C, E, D> {}
@@ -80,7 +82,7 @@ where
     C: Encoder<E, Error = anyhow::Error> + Decoder<Item = D, Error = anyhow::Error> + Unpin,
 {
     pub fn new(stream: WebSocketStream<T>, codec: C) -> Self {
-        Self { stream, codec, encode_item: PhantomData, decode_item: PhantomData, buffer: None }
+        Self { stream, codec, encode_item: PhantomData, decode_item: PhantomData, buffer: BytesMut::new(), is_readable: false, has_errored: false }
     }
 }
 
@@ -93,31 +95,29 @@ where
     type Item = Result<D>;
 
     fn poll_next(mut self: Pin<&mut Self>, cx: &mut Context<'_>) -> Poll<Option<Self::Item>> {
+        let this = &mut *self;
         loop {
-            match ready!(self.stream.poll_next_unpin(cx)) {
+            // like FramedRead: the stream ends after a decode error
+            if this.has_errored {
+                return Poll::Ready(None);
+            }
+            // decode everything that is buffered before waiting for the next message
+            if this.is_readable {
+                match this.codec.decode(&mut this.buffer) {
+                    Ok(Some(item)) => return Poll::Ready(Some(Ok(item))),
+                    Ok(None) => this.is_readable = false,
+                    Err(e) => {
+                        this.has_errored = true;
+                        return Poll::Ready(Some(Err(e)));
+                    }
+                }
+            }
+            match ready!(this.stream.poll_next_unpin(cx)) {
                 Some(Ok(msg)) => {
                     if msg.is_binary() || msg.is_text() {
-                        let mut payload = match self.buffer.take() {
-                            Some(buffer) => {
-                                let msg_payload = msg.as_payload();
-                                let mut payload = BytesMut::with_capacity(buffer.len() + msg_payload.len());
-                                payload.extend_from_slice(&buffer);
-                                payload.extend_from_slice(msg_payload);
-                                payload
-                            }
-                            None => BytesMut::from(msg.into_payload()),
-                        };
-                        let decoded = self.codec.decode(&mut payload);
-                        if !payload.is_empty() {
-                            self.buffer = Some(payload);
-                        }
-                        match decoded {
-                            Ok(Some(item)) => return Poll::Ready(Some(Ok(item))),
-                            Ok(None) => return Poll::Pending,
-                            Err(e) => return Poll::Ready(Some(Err(e))),
-                        }
+                        this.buffer.extend_from_slice(msg.as_payload());
+                        this.is_readable = true;
                     }
-                    continue;
                 }
                 Some(Err(e)) => return Poll::Ready(Some(Err(anyhow!(e)))),
                 None => return Poll::Ready(None),
